@@ -442,6 +442,18 @@ theorem utf_encoder_fills_buffer (st : Xt.Encoding.St) (n : Nat) (out : List Nat
   rw [h1, List.length_take]
 
 open Xt.Encoding in
+/-- The other side of K10 — what bounds the look-ahead: one `read` with an
+`n`-byte buffer takes at most `n` characters from the decoder (each is at most
+two UTF-16 units or one UTF-32 unit, i.e. at most 4 source bytes), whatever it
+returns.  With libyaml's 16 KiB buffer this is the "one buffer" bound the
+harness holds UTF-16 / UTF-32 streams to. -/
+theorem utf_encoder_lookahead_bounded (st : Xt.Encoding.St) (n : Nat)
+    (r : Except Xt.Encoding.RErr (List Nat)) (st' : Xt.Encoding.St)
+    (h : Xt.Encoding.read st n = (r, st')) :
+    ∃ k, k ≤ n ∧ st'.items = st.items.drop k :=
+  read_consumes st n r st' h
+
+open Xt.Encoding in
 /-- Non-vacuity, and the finding in one line: three one-byte documents' worth
 of characters are all pulled from the source by ONE 3-byte read. -/
 example : (Xt.Encoding.read ⟨[.ch 97, .ch 98, .ch 99], []⟩ 3).1 = .ok [97, 98, 99] := by
@@ -467,5 +479,6 @@ example : (Xt.Encoding.read ⟨[.ch 97, .ch 98, .ch 99], []⟩ 3).1 = .ok [97, 9
 #print axioms Xt.Props.C09.toml_trial_capped
 #print axioms Xt.Props.C09.detect_reads_first_doc_only
 #print axioms utf_encoder_fills_buffer
+#print axioms utf_encoder_lookahead_bounded
 
 end Xt.Props.C05
